@@ -42,6 +42,8 @@ import (
 
 var params = &chaincfg.MainNetParams
 
+var errLoop = errors.New("input source called more than len(coins)+3 times")
+
 // ---------------------------------------------------------------- case types
 
 type c07Out struct {
@@ -304,6 +306,11 @@ func prefixSource(coins []coinInfo, rounds *int) txauthor.InputSource {
 	rest := coins
 	return func(target btcutil.Amount) (btcutil.Amount, []*wire.TxIn, []btcutil.Amount, [][]byte, error) {
 		*rounds++
+		if *rounds > len(coins)+3 {
+			// the property's loop needs at most len(coins)+1 rounds; stop a
+			// loop that no longer makes progress instead of hanging
+			return 0, nil, nil, nil, errLoop
+		}
 		for total < target && len(rest) != 0 {
 			c := rest[0]
 			rest = rest[1:]
@@ -384,10 +391,14 @@ func runAuthor(in c07Input) (c07Obs, []string, error) {
 			// cover the outputs plus the required fee (most lenient reading:
 			// all offered coins, fee for the worst-case size of the
 			// transaction spending all of them, with a change output).
-			need := sumOut + in.Rate*specWorstVsize(allKinds, outLens, len(changeScript))/1000
+			// (the fee rounded UP, so that a rounding choice is not demanded)
+			need := sumOut + (in.Rate*specWorstVsize(allKinds, outLens, len(changeScript))+999)/1000
 			if sumAll >= need {
 				bad = append(bad, "spurious_insufficient_funds")
 			}
+		} else if errors.Is(err, errLoop) {
+			obs.Err = "other:" + err.Error()
+			bad = append(bad, "loop_not_terminating")
 		} else {
 			obs.Err = "other:" + err.Error()
 			bad = append(bad, "unexpected_error")
@@ -698,6 +709,52 @@ func boundaryCase(r *gen.R, nOut, nCoins int, change string, rate int64, delta i
 	return c07Input{Kind: "author", Outs: outs, Rate: rate, Coins: coins, Change: change}
 }
 
+// ladderCase: every round of the loop pulls exactly one more coin: coin j+1
+// lifts the total just above outputs + fee(first j coins) but (except for the
+// last coin) not above outputs + fee(first j+1 coins).
+func ladderCase(r *gen.R, nOut, nCoins int, change string, rate int64, last int64, keyBase *int) c07Input {
+	outs := pickOuts(r, nOut, 600)
+	var sumOut int64
+	for _, o := range outs {
+		sumOut += o.V
+	}
+	lens := outLensOf(outs)
+	chl := outScriptLen(change)
+	coins := make([]c07Coin, 0, nCoins)
+	var total int64
+	// target of the first round: the smallest single-input guess
+	target := sumOut + rate*specWorstVsize([]string{"p2tr"}, lens, chl)/1000
+	for j := 0; j < nCoins; j++ {
+		*keyBase++
+		k := coinKinds[r.Intn(4)]
+		if j == 0 && k == "p2tr" {
+			k = "p2wpkh"
+		}
+		coins = append(coins, c07Coin{K: k, Key: *keyBase})
+		own := sumOut + rate*specWorstVsize(kindsOf(coins), lens, chl)/1000
+		v := target - total
+		if j == nCoins-1 {
+			v = own - total + last
+		} else if own-target > 1 {
+			v += int64(r.Range(0, int(minI64(own-target-1, 50))))
+		}
+		if v < 0 {
+			v = 0
+		}
+		coins[j].V = v
+		total += v
+		target = own
+	}
+	return c07Input{Kind: "author", Outs: outs, Rate: rate, Coins: coins, Change: change}
+}
+
+func minI64(a, b int64) int64 {
+	if a < b {
+		return a
+	}
+	return b
+}
+
 func randomCase(r *gen.R, keyBase *int) c07Input {
 	nOut := []int{0, 1, 1, 2, 2, 3, 5, 8, 13, 30}[r.Intn(10)]
 	outs := pickOuts(r, nOut, int64(r.Range(300, 3000)))
@@ -780,10 +837,12 @@ func main() {
 					for _, rate := range []int64{1000, pickRate(r)} {
 						outs := pickOuts(r, nOut, 600)
 						if nOut >= 250 && !thorough {
-							// keep the quick tier small: one script type per big case
+							// keep the quick tier small: equal outputs in a big case (the
+							// mixed-kind cases of 1b and the thorough tier mix them)
 							t := outTypes[r.Intn(len(outTypes))]
 							for i := range outs {
 								outs[i].T = t
+								outs[i].V = outs[0].V
 							}
 						}
 						var sumOut int64
@@ -859,8 +918,19 @@ func main() {
 				}
 			}
 		}
+		// 2c. ladders: one more coin per round
+		nl := c.N / 6
+		for i := 0; i < nl; i++ {
+			ch := changeTypes[r.Intn(4)]
+			dust := specDustThreshold(outScriptLen(ch), isWitnessType(ch))
+			last := []int64{-1, 0, dust - 1, dust, 5 * dust}[i%5]
+			in := ladderCase(r, []int{0, 1, 2, 4}[r.Intn(4)], r.Range(2, 6), ch, pickRate(r), last, &keyBase)
+			if err := emit(in, []string{"ladder"}); err != nil {
+				return err
+			}
+		}
 		// 3. random
-		for i := 0; i < c.N-nb; i++ {
+		for i := 0; i < c.N-nb-nl; i++ {
 			if err := emit(randomCase(r, &keyBase), []string{"random"}); err != nil {
 				return err
 			}
